@@ -1,6 +1,7 @@
 """Helpers shared by the checks C15, C16, C17 (builder A): sharded trace validation."""
 import os
 import threading
+import time
 import vlib
 
 
@@ -30,24 +31,14 @@ def validate_sharded(module, cfg, recs, wd, shards=4, tag="shard", sum_keys=("co
             cur = []
     if cur:
         groups.append(cur)
-    results = [None] * len(groups)
-    errors = []
-
-    def work(k):
-        try:
+    def job(k):
+        def f():
             p = os.path.join(wd, "%s%d.ndjson" % (tag, k))
             vlib.write_ndjson(p, [recs[i] for i in groups[k]])
-            results[k] = vlib.validate_trace(module, cfg, p, os.path.join(wd, "%s%d.json" % (tag, k)), timeout=timeout, xmx="3g")
-        except Exception as e:  # noqa: BLE001
-            errors.append(e)
+            return vlib.validate_trace(module, cfg, p, os.path.join(wd, "%s%d.json" % (tag, k)), timeout=timeout, xmx="3g")
+        return f
 
-    th = [threading.Thread(target=work, args=(k,)) for k in range(len(groups))]
-    for t in th:
-        t.start()
-    for t in th:
-        t.join()
-    if errors:
-        raise vlib.ToolError("sharded validation of %s failed: %s" % (module, errors[0]))
+    results = parallel([job(k) for k in range(len(groups))])
     merged = {"viol": []}
     states = 0
     for k, (res, r) in enumerate(results):
@@ -68,22 +59,41 @@ def validate_sharded(module, cfg, recs, wd, shards=4, tag="shard", sum_keys=("co
 
 
 def parallel(jobs):
-    """Run callables concurrently (each one starts its own TLC process); returns their results in order.
-    The first exception is re-raised."""
-    out = [None] * len(jobs)
-    errs = []
+    """Run callables concurrently, each in a forked child process (vlib names TLC's metadir by pid and
+    millisecond, so concurrent TLC runs must come from different pids). Returns the results in order;
+    the first exception is re-raised."""
+    import multiprocessing
+    ctx = multiprocessing.get_context("fork")
+    procs = []
+    for k, job in enumerate(jobs):
+        rx, tx = ctx.Pipe(duplex=False)
 
-    def work(k):
+        def child(job=job, tx=tx):
+            try:
+                tx.send(("ok", job()))
+            except vlib.ToolError as e:
+                tx.send(("tool", str(e)))
+            except Exception as e:  # noqa: BLE001
+                tx.send(("exc", repr(e)))
+            finally:
+                tx.close()
+
+        p = ctx.Process(target=child)
+        p.start()
+        tx.close()
+        procs.append((p, rx))
+    out, errs = [], []
+    for p, rx in procs:
         try:
-            out[k] = jobs[k]()
-        except Exception as e:  # noqa: BLE001
-            errs.append(e)
-
-    th = [threading.Thread(target=work, args=(k,)) for k in range(len(jobs))]
-    for t in th:
-        t.start()
-    for t in th:
-        t.join()
+            kind, val = rx.recv()
+        except EOFError:
+            kind, val = "exc", "worker died"
+        p.join()
+        if kind == "ok":
+            out.append(val)
+        else:
+            out.append(None)
+            errs.append(vlib.ToolError(val) if kind == "tool" else vlib.ToolError("parallel job failed: %s" % val))
     if errs:
         raise errs[0]
     return out
@@ -105,6 +115,15 @@ def selftest_traces(module, cfg, wd, ref, muts):
 
     got = dict(zip(names, parallel([job(n) for n in names])))
     for n in sorted(muts):
-        if got[n]["nviol"] <= got["ref"]["nviol"]:
+        key = lambda r: sorted((v["line"], v["clause"]) for v in r["viol"])  # noqa: E731
+        if got[n]["nviol"] <= got["ref"]["nviol"] and key(got[n]) == key(got["ref"]):
             raise vlib.ToolError("self-test %s: corrupted trace was not rejected by %s" % (n, module))
     return got
+
+
+def mark_bad(recs, out):
+    """Mark the events the main validation already rejected (self-test corruptions avoid them).
+    Returns False when the violation list was capped, i.e. not every rejected event is known."""
+    for v in out["viol"]:
+        recs[v["line"] - 1]["_bad"] = True
+    return out["nviol"] <= len(out["viol"])
